@@ -53,6 +53,12 @@ CLAIMS = {
  'C10': dict(engine='kani+mirsym', category='fault_enumeration', technique='bounded symbolic execution of the MIR of restore / list (Stitch) / validate / backup over an archive in which one index entry has solver-chosen decoded field values, or one stored file has solver-chosen damage; Kani kernel for the admitted mtime range',
    text='Decoded-field layer: with kind, mtime (any i64), nanos (any u32), target presence, an address with any start/len into a present or missing block, odd apaths and an unparseable band version, none of restore, list, validate, backup panics, and entries are not dropped without an error being reported. Containment layer: for one- and two-version histories with any single file deleted / emptied / garbage / altered, restore of every version does not panic, files whose hunk and blocks are untouched are restored exactly, lost or altered files are reported, and after deletion or truncation a new backup completes and is exact. Kani: every (mtime, nanos) admitted by IndexEntry::check() is safe for IndexEntry::mtime/ToFileTime.',
    note='Trusted: as C01/C03. Third-party decoders (snap, serde_json, hex, semver) are not executed: their robustness and hangs are outside; a band whose head is gone is not a version, what other versions stitched through it is outside.', design='§3 C10'),
+ 'C02': dict(engine='mirsym', technique=BT + ', of Archive::resolve_band_id / last_complete_band / last_band_id / list_band_ids, and of delete_bands, over the store model; the history claim is decomposed into per-operation preservation steps (C03/C04/C05/C07/C08/C13) plus the reuse decision and version selection decided here by z3 over symbolic mtimes, sizes and band-id sets; one bounded multi-step history explored in addition; native replay',
+   text='Reuse step: for a basis entry and a source entry of the same file with solver-chosen (seconds, nanoseconds) mtimes and sizes, a file whose content changed (with a new mtime or size) is never recorded with the basis addresses, and an unchanged file is. Selection: for band-id sets drawn from {0,3,9998,9999,10000,100000} (up to 3 ids), each band open or closed, LatestClosed is the newest closed band and Latest the newest. History: backup(T1); backup(T2: one file rewritten, one added whose content exists in T1 under another name); delete the first version; backup(T2) again, with symbolic sizes/options: every completed, undeleted version resolves to its own snapshot after every step. Arbitrary histories are covered only as the composition of those per-operation steps, not searched.',
+   note='Trusted: as C03/C05. The inductive decomposition is an argument in DESIGN.md, not something the solver checks; histories longer than the one explored, renames, kind changes and interrupted+resumed steps inside a history are covered only through the per-operation checks of C03/C07/C08.', design='§3 C02'),
+ 'C06': dict(engine='mirsym', technique='bounded symbolic execution of the MIR of the real backup() and the real Archive::delete_bands (gc) as two interpreter threads over one store model; a deterministic scheduler hands control over only immediately before a storage operation and the explorer enumerates every schedule up to a preemption bound (context-bounded model checking) while z3 decides sizes and data-dependent branches on each schedule; losing schedules are replayed natively by parking the real operations at the verif_hooks transport interceptor',
+   text='One backup (tree containing a file whose bytes equal an unreferenced block already in the archive) against one gc on an archive with one complete version; which operation starts is free; every interleaving at storage-operation granularity with at most 2 (quick) / 3 (thorough) preemptions: after both finish, every complete version refers only to blocks that still exist. On the current tree one losing schedule class exists and is a recorded known finding; any losing schedule of another class is a violation.',
+   note='Trusted: MIR printer, mirsym + models, Store model with atomic operations, scheduler in mirsym/harness/race.py, z3. Random schedules beyond the preemption bound are not explored (sampling is outside this technique); delete of a named version racing a backup is covered by the same code path (delete_bands) only with an empty delete set.', design='§3 C06'),
 }
 NA = {
  'C15': 'exclusion semantics live in globset/regex automata, which neither Kani nor the MIR interpreter can execute; a model of glob matching would verify the model, not conserve (DESIGN §4)',
@@ -82,7 +88,7 @@ m = {
  'setup_cmd': 'bin/setup',
  'hooks': {'guard': 'verif_hooks', 'enable': 'cargo feature verif_hooks (path dependency features = ["verif_hooks"])',
            'baseline_off_cmd': 'cd /repo && cargo test --workspace --no-fail-fast --offline',
-           'source_commits': [], 'add_only': True},
+           'source_commits': ['bcdf5db'], 'add_only': True},
  'engines': [
    {'name': 'mirsym', 'path': 'mirsym/', 'serves_properties': [p for p in CLAIMS if 'mirsym' in CLAIMS[p]['engine']],
     'kind_free_text': 'own bounded symbolic executor for rustc MIR text (-Zunpretty=mir of /repo, regenerated every run), path conditions decided by z3, counterexamples replayed against the real crate by replay/'},
